@@ -21,8 +21,7 @@ func init() { Registry["C19lock"] = c19lock }
 // the order graph: a cycle (or a lock re-entered by the goroutine that holds it) is a potential deadlock whatever the
 // interleavings that were actually observed.
 func c19lock(c *run.Ctx) {
-	c.Need("c19_lock_events", 1)
-	c.Need("c19_lock_order_edges", 1)
+	c.Need("c19_lock_events", 1) // the observer must have seen the locks; a store that never nests two of them has no edges, which is fine
 	if !world.LockOrderStart() {
 		c.Inconcl("binary built without the verif tag: the lock observer hook is not compiled in")
 		return
